@@ -403,6 +403,12 @@ def confirm_sync(pid, v, blobs):
 
 def confirm(pid, v, blobs=None):
     if v.get('native_case') is not None: return confirm_case(pid, v)
+    if isinstance(v.get('cfg'), dict) and v['cfg'].get('fine'):
+        h = hashlib.sha1(json.dumps(v['trace'], sort_keys=True, default=str).encode()).hexdigest()[:10]
+        path = os.path.join(HERE, 'replays', f'{pid}-{h}.json'); os.makedirs(os.path.dirname(path), exist_ok=True)
+        json.dump({'kind': 'fine-interleaving-engine-only', 'violation': {'property': pid, 'what': v['what']}, 'trace': v['trace'], 'cfg': v['cfg'], 'model': v.get('model')}, open(path, 'w'), indent=1, default=str)
+        return {'status': 'engine_only', 'path': path, 'known': v.get('known'),
+                'detail': 'the interleaving preempts a thread between two accesses to shared state where the source has no schedule point: it cannot be forced natively'}
     if v.get('kind') == 'sync': return confirm_sync(pid, v, blobs)
     if v.get('kind') in ('redisrecycle', 'redisconfig', 'pgmanager'):
         # no scriptable native backend (a RESP / postgres wire server would be needed): engine evidence only, stated as such
